@@ -29,6 +29,9 @@ def setup(tree: str) -> None:
     tree = os.path.abspath(tree)
     if tree not in sys.path:
         sys.path.insert(0, tree)
+    import logging
+    logging.getLogger("rdflib").setLevel(logging.CRITICAL)
+    logging.getLogger("rdflib.term").setLevel(logging.CRITICAL)
     import pyjelly
     assert os.path.abspath(pyjelly.__file__).startswith(tree), f"wrong pyjelly imported: {pyjelly.__file__} (want {tree})"
 
@@ -113,8 +116,20 @@ def from_rdflib(o: Any) -> tuple:
     return ("??", repr(o))
 
 
+def rdflib_norm(ev: Any) -> Any:
+    """what rdflib itself makes of the terms of an event (it normalises some lexical forms, e.g. xsd:boolean, and
+    lower-cases language tags): the expectation for rdflib-facing comparisons (A-RDFLIB)"""
+    if isinstance(ev, list):
+        return [rdflib_norm(x) for x in ev]
+    if isinstance(ev, tuple) and ev and ev[0] in ("triple", "quad"):
+        return (ev[0], *[from_rdflib(to_rdflib(t)) for t in ev[1:]])
+    return ev
+
+
 def lower_lang(ev: Any) -> Any:
     """language tags compare case-insensitively (RDF 1.1); used only by rdflib-facing oracles"""
+    if isinstance(ev, list):
+        return [lower_lang(x) for x in ev]
     if isinstance(ev, tuple):
         if ev and ev[0] == "lit":
             return ("lit", ev[1], ev[2].lower() if ev[2] else None, ev[3])
